@@ -18,7 +18,7 @@
  *     is accepted (late joiner) | R<model>:<ver> require | C<i>:<p> add_cpu | K<r>:<n> set_rank |
  *     X<cpu> emit OHx | e emit OHe | M<type>:<value> ovni_mark_set | T<type>:<title> ovni_mark_type |
  *     F flush | AD<key>=<double> AS<key>=<str> AB<key>=<0|1> AJ<key>=<json> attr set | G attr_flush |
- *     Z thread_free | N bare ovni_clock_now | B second barrier | Y yield | S<n> spin | U<us> usleep
+ *     Z thread_free | N bare ovni_clock_now | B second barrier | Y yield | S<n> spin | U<us> usleep | J (lockstep) wait until a thread entered ovni_proc_fini
  *     lockstep <seed>       serialised mode: exactly one thread runs at a time and the others wait; the
  *                           running thread may be switched (pseudo-randomly, from <seed>) at every libc call
  *                           the library makes that this executable interposes (strtol, strtod, snprintf,
@@ -175,6 +175,24 @@ static void ls_yield(void)
 }
 static void ls_yield_fwd(void) { ls_yield(); }
 
+static atomic_int in_fini;
+
+/* hand the turn to some OTHER live thread; 0 when there is none */
+static int ls_yield_away(void)
+{
+	struct thr *t = self;
+	int me = (int) (t - T), others = 0;
+	for (int i = 0; i < nthreads; i++)
+		others += i != me && atomic_load(&ls_alive[i]);
+	if (!others)
+		return 0;
+	ls_in = 1;
+	ls_pass(me, 0);
+	ls_wait(me);
+	ls_in = 0;
+	return 1;
+}
+
 /* ---- libc calls of the library that are scheduling points in lockstep mode ----
  * (left out of the ThreadSanitizer build, which has its own interceptors for them) */
 #ifndef RTCONC_NO_LOCKSTEP
@@ -245,6 +263,14 @@ int mkdir(const char *path, mode_t mode)
 	ls_yield();
 	return real(path, mode);
 }
+
+/* ovni_proc_fini() empties the temporary directories with rmdir(2) between its two accesses to the process state */
+int rmdir(const char *path)
+{
+	REAL(rmdir);
+	ls_yield();
+	return real(path);
+}
 #endif /* RTCONC_NO_LOCKSTEP */
 
 static _Thread_local volatile unsigned long sink;
@@ -277,7 +303,12 @@ static void run_op(struct thr *t, char *op)
 	char *c, *q;
 	switch (op[0]) {
 	case 'P': ovni_proc_init(app, loom, pid); break;
-	case 'Q': ovni_proc_fini(); break;
+	case 'Q': atomic_store(&in_fini, 1); ovni_proc_fini(); break;
+	case 'J':
+		/* lockstep only: give the turn away until some thread has entered ovni_proc_fini() (or nobody else is left) */
+		while (lockstep && !atomic_load(&in_fini) && ls_yield_away())
+			;
+		break;
 	case 'I': ovni_thread_init((pid_t) atoi(op + 1)); break;
 	case 'W': {
 		/* late joiner: a refused ovni_thread_init leaves no trace in the thread
